@@ -1,26 +1,36 @@
 CFG = {
  'files': ['bitstr/bitstr.go'],
+ 'runs': [{'tags': 'verif'}, {'tags': 'verif', 'race': True, 'thorough_only': True}],
  'go': {'bitstr.New': 'bitstr.New',
         'bitstr.Len': 'bitstr.Len(bitstr.New(s,from,to))',
         'bitstr.Cmp': 'bitstr.Cmp(bitstr.New(s1,f1,t1), bitstr.New(s2,f2,t2))',
         'bitstr.CmpUpto': 'bitstr.CmpUpto(a, bitstr.New(s,from,to)) + inputs unchanged',
-        'bitstr.StrCmpUpto': 'bitstr.StrCmpUpto(string(a), e) and bitstr.CmpUpto(a, e), e = bitstr.New(s,from,to), + inputs unchanged'},
+        'bitstr.StrCmpUpto': 'bitstr.StrCmpUpto(string(a), e) and bitstr.CmpUpto(a, e), e = bitstr.New(s,from,to), + inputs unchanged',
+        'bitstr.New/decode': 'bitstr.New (its output must be a well-formed encoding that decodes to the bits of the range)',
+        'bitstr.CmpUpto/viaNew': 'bitstr.CmpUpto(a, e) and bitstr.Cmp(bitstr.New(a, 0, min(8*len(a), bitstr.Len(e))), e), e = bitstr.New(s,from,to)',
+        'bitstr.CmpUpto/sorted': '[bitstr.CmpUpto(k, e) for k in keys], keys sorted by bytes.Compare, e = bitstr.New(s,from,to): spec values and non-decreasing'},
  'rule': 'bit strings are always given as (s, from, to) and encoded by the real New. cases = corpus + exhaustive sweeps (New and '
          'Len(New) on all strings of length <= 2 over {00,01,7f,80,ff,a,b} x all to x from (quick: boundary residues, thorough: all); '
          'Cmp on all pairs of the 57 one-byte bit strings (thorough: all 449^2 pairs of bit strings of length <= 16); CmpUpto/'
          'StrCmpUpto of plain strings of length <= 2 against those bit strings) + random pairs of strings of 0..20 bytes sharing '
          'prefixes (identical / one flipped bit / common prefix + tails / extension / last-byte low bits) with to drawn at the other '
          'side\'s length, byte boundaries and +-9 bits around it, from in the first byte, at to, aligned; plain a shorter / equal / '
-         'longer than the payload, flipped around bit to. A case is non-trivial when the bit strings involved are non-empty (and a is '
+         'longer than the payload, flipped around bit to + a structured sweep (payload lengths 1..12 bytes x to in {8n,8n-3,8n-7} x every position of a single differing byte x len(a) in {i+1,n-1,n,n+1}; the same pairs through Cmp; long strings of 16..40 payload bytes differing at bytes 7,8,15,16,n-2,n-1). Every CmpUpto case is also run as Cmp(New(a,0,min(8*len(a),Len(e))),e) (viaNew). Sorted key sets: the 57 plain strings of length <= 2 (sorted) against each of the 449 bit strings; random sets of 2..10 keys derived from the encoded string (cut, extended, flipped inside / at / after bit to, same payload + other tail, random), sorted with bytes.Compare (key = how many keys fall before / inside / after the matching block). A case is non-trivial when the bit strings involved are non-empty (and a is '
          'non-empty); shape key = (op, same byte length?, relation eq/prefix/first differing byte class and bit, to mod 8 = 0?, payload '
          'class <8/8/>8 bytes | CmpUpto branch empty/short/ge, cmpBytes fast path?); distinct = distinct (op,args)',
  'assumptions': ['0 <= from <= to <= 8*len(s) (the domain of New stated in the property); strings are byte lists',
-                 '8*len(s)+7 < 2^31 (int32 bit positions cannot overflow; longer strings are outside every statement)',
+                 '8*len(s)+7 < 2^31 (int32 bit positions cannot overflow). The protocol operations run the int32-faithful model New32/Len32 (Model/Bitstr32.v), '
+                 'proved equal to the unbounded New/Len when toBit+7 < 2^31 (C09_new32_eq, C09_len32_eq). BOUNDARY FINDING: for toBit in [2^31-7, 2^31-1] '
+                 '(valid int32, reachable with a string of 2^28 bytes) (toBit+7)>>3 overflows and New panics in make (C09_new32_top_panics, '
+                 'C09_new_full_int32_range_refuted; replayed on the real code with a 256 MiB string: "makeslice: len out of range"); not exercised by the '
+                 'generator (the text protocol does not carry 256 MiB strings)',
                  'Cmp/CmpUpto/Len are exercised on encodings produced by the real New (the theorems hold for the canonical encoding of ANY bit list)'],
  'trusted': ['modelled not verified: bytes.Compare (= cmp_sign of lexicographic order on unsigned bytes, prefix first), copy, bits.OnesCount8 (popcount), bitmap.RMask (Lib/Bits.v RMask, pinned by C12)',
-             'NOT PROVED, monitored only: memory safety of the unsafe string->slice cast in StrCmpUpto (it reads a 24-byte slice header out of a 16-byte string header); '
+             'NOT PROVED, monitored only: memory safety of the unsafe string->slice re-typing in StrCmpUpto (since the fix 907cc2b the slice header is built explicitly '
+             'with Cap = Len; before, a 24-byte slice header was read out of a 16-byte string header and the garbage capacity made a[:lb-2] panic intermittently); '
+             'what stays unproved is that no store goes through the alias of the string; '
              'every StrCmpUpto case is compared with CmpUpto on the same bytes and the inputs are checked unchanged'],
- 'explanation': 'Model/Bitstr.v restates New/Cmp/cmpBytes/CmpUpto/Len with the same branches; Spec/BitstrSpec.v defines the bit string '
-                'B s f t, its canonical encoding encB and uses bits_cmp (lexicographic, proper prefix first); Properties/C09.v proves '
+ 'explanation': 'Model/Bitstr32.v makes the int32 arithmetic of New/Len explicit (wraps); Model/Bitstr.v restates New/Cmp/cmpBytes/CmpUpto/Len with the same branches; Spec/BitstrSpec.v defines the bit string '
+                'B s f t, its canonical encoding encB and uses bits_cmp (lexicographic, proper prefix first); Widened: Spec/BitstrSearchSpec.v (sorted keys, non-decreasing results), Spec/BitstrDecodeSpec.v (wf_enc = which byte strings are encodings, decB = the bit string one denotes); Proofs/Bitstr{Search,Decode,32}Proofs.v. Properties/C09.v proves '
                 'New = encB o B and, for arbitrary bit lists, Len/Cmp/CmpUpto of encodings = length / bits_cmp / truncated bits_cmp.',
 }
